@@ -1,7 +1,7 @@
 """C48 — ignore patterns match according to their documented semantics
 (breezy/globbing.py: Globster, ExceptionGlobster, _OrderedGlobster; the
-translators _sub_fullpath/_sub_basename/_sub_extension; normalize_pattern from
-bzrformats; breezy/ignores.py + WorkingTree.is_ignored).
+translators _sub_fullpath/_sub_basename/_sub_extension/_sub_re; normalize_pattern
+from bzrformats; breezy/ignores.py + WorkingTree.is_ignored).
 
 T2: pattern lists over a bounded glob grammar (letters, '.', '*', '?', '**/',
 character classes, './' and '/' prefixes, backslash / doubled / trailing
@@ -20,21 +20,38 @@ the documented rules decides, per pattern, whether it matches; then
   * match() is None  <=>  no pattern matches; a reported pattern is in the
     (normalised) list and matches;
   * padding the list with never-matching patterns of the same type (which moves
-    the 99-boundaries) or appending them does not change the result;
+    the 99-boundaries) or appending them does not change the result; for an
+    ExceptionGlobster the '!' and '!!' lists are padded as well;
   * ExceptionGlobster: some '!!p' matches -> '!!'+such a pattern; else some
     '!p' matches -> None; else the plain result;
   * is_ignored(name) is truthy exactly when the reference says so for the
-    tree's ignore list, and the .bzrignore lines all arrive in that list.
+    tree's ignore list, and the .bzrignore lines all arrive in that list;
+  * RE: stream (run_re): lists with `RE:<regex>` patterns built from small regex
+    ASTs (literals, '.', escaped metacharacters incl. `\\(`, classes incl. `[(]`,
+    capturing and non-capturing groups with alternation, `* ? +`), alone, mixed
+    with globs, under '!' / '!!', and next to the 99-boundary of the fullpath
+    type; reference for one RE: pattern = Python `re` on the regex AS WRITTEN,
+    anchored to the whole path.  All list-level predicates above apply (a user
+    capture group must not shift the reported pattern: `lastindex`).  The model
+    must answer 'outside grammar' for these lists.
 
 The extension regex exists in two modelled shapes; the harness reads the live
-`Globster.pattern_info` and asks the model for the matching one ('greedy' =
-shared prefix `(?:.*\\.)`, the current code; 'inorder' = each alternative
-carries its own `.*\\.`, the patch proposed with finding ext-multidot-regroup).
+`Globster.pattern_info`: 'inorder' (each alternative carries its own `.*\\.`,
+the code since ac6b52e) is what the headline theorems describe; if the live
+code has the 'greedy' shared prefix `(?:.*\\.)` again, the run records a tie
+break (the theorems about globsterMatchO/exceptionMatchO no longer describe
+the code) in addition to whatever the padding oracle finds (family
+`ext-multidot-regroup`).
 
-FINDING on the unchanged code (family `ext-multidot-regroup`): with two
-extension patterns that match a name at different dots (`*.a.b`, `*.b` on
-`x.a.b`) the reported pattern depends on whether both fall into the same group
-of 99 (greedy shared prefix tries the last dot first for the whole group).
+FINDINGS on the unchanged code (classifier on the concrete input, recorded at
+most 3x per run, sorted after any violation without family):
+  re-escaped-open-paren-rewritten   `_sub_re` rewrites every '(' not followed by
+      '?' into '(?:' — also an escaped one: `RE:a\\(b` compiles to `a\\(?:b`, no
+      longer matches 'a(b' and matches 'a:b'
+  re-open-paren-in-class-rewritten  same rule inside a class: `RE:a[(]b` becomes
+      `a[(?:]b` and additionally matches 'a?b', 'a:b'
+  (repro + tested 2-line patch: /var/tmp/imp-C47C48/c48/)
+  ext-multidot-regroup              repaired by ac6b52e; reported again on regression
 
 Mutants this was built against (scratch worktree; all caught by the oracle with
 a concrete input unless noted):
@@ -52,20 +69,31 @@ a concrete input unless noted):
   M11 canonicalisation rule `(?:\\.?/)+` of `_sub_fullpath` dropped
   M12 ExceptionGlobster: `p[2:]` -> `p[1:]` for '!!' patterns
   Mshape extension prefix without `(?!.*/)` (also: shape not recognised -> tie broken)
+  MA  '!!' wins only when no '!' pattern matches (`if double_neg and not self._ignores[1].match(..)`)
+  MB  `_sub_re`: "^RE:" -> ".*" (an RE: pattern matches a suffix of the path)   -> RE: oracle
+  MC  ac6b52e reverted (shared greedy extension prefix) -> tie break + padding oracle (ext-multidot-regroup)
+  MD  `_sub_re` no longer neutralises user capture groups -> RE: oracle (IndexError / wrong pattern via lastindex)
+  ME  the '!' list keeps only its first 99 patterns -> padding oracle with '!' fillers
   H1  harmless: Globster.__init__ builds the three lists with comprehensions — clean.
-  FIX the proposed patch (own `.*\\.` per extension alternative): 0 violations, 0 mismatches.
+  FIX the proposed `_sub_re` patch (keep `\\.` and character classes): 0 violations, 0 mismatches.
 """
 import functools
 
 from vlib import env
 
 THEOREMS = [
-    "reported_pattern_matches", "ignored_iff_some_matches", "group_size_irrelevant_ignored",
+    # live variant (globsterMatchO / exceptionMatchO: the code since ac6b52e)
+    "reported_pattern_matches", "ignored_iff_some_matches", "group_size_irrelevant",
+    "group_size_irrelevant_reported", "group_size_irrelevant_ignored",
+    "truthy_iff", "exception_double", "exception_single", "exception_plain", "exception_ignored_iff",
+    "exception_group_size_irrelevant", "exception_spec", "exception_empty_pattern_witness", "splitExc_spec",
+    # historical greedy variant (before ac6b52e)
+    "reported_pattern_matches_greedy", "ignored_iff_some_matches_greedy", "variants_agree_on_ignored",
     "group_size_irrelevant_partial", "group_size_witness", "first_in_type_order_noext",
-    "group_size_irrelevant_inorder",
-    "exception_double", "exception_single", "exception_plain", "exception_ignored_iff",
-    "exception_group_size_irrelevant", "exception_empty_pattern_witness", "splitExc_spec",
+    "exception_ignored_iff_greedy",
+    # documented matching rules, lexer, normalisation
     "basename_dir_irrelevant", "ext_literal_iff_suffix", "starstar_iff", "lex_starstar_prefix",
+    "lex_starstar_mid", "starstar_mid_matches", "normalize_idempotent", "normalize_clean",
     "star_iff", "mode_irrelevant_without_slash", "ordered_first_match",
     "identify_slash_full",
 ]
@@ -73,8 +101,11 @@ RULE = ("one case = (operation, pattern list, file name); non-trivial = at least
         "matches the name under the reference matcher, or the list has more than 99 patterns of one type")
 ASSUMPTIONS = [
     "file names contain no newline and have a non-empty last component",
-    "patterns outside the modelled grammar (RE:, named classes, unbalanced brackets, surviving backslashes) "
+    "patterns outside the modelled grammar (named classes, unbalanced brackets, surviving backslashes, arbitrary RE:) "
     "are only checked for: model says 'outside grammar', real code raises InvalidPattern or reports a listed pattern",
+    "RE: patterns of the generated regex sub-grammar (no back-references, no inline flags, no named groups, no "
+    "trailing slash or backslash) are checked by the oracle against Python re on the regex as written; they are "
+    "not modelled in Lean",
 ]
 TRUSTED = [
     "Python re (backtracking order of the greedy prefixes and of alternation) is modelled, not verified",
@@ -286,6 +317,8 @@ def _ref_compiled(p):
 
 def ref_match(p, name):
     """does the normalised pattern match the path, by the documented rules"""
+    if p.startswith("RE:"):
+        return bool(_re_ref(p[3:]).match(name))      # the regular expression must match the whole path
     k, toks = _ref_compiled(p)
     if k == "fullpath":
         return ref_tokens_match(toks, name, True)
@@ -581,6 +614,165 @@ def g_big_list(rng, exc=False):
 
 
 # ----------------------------------------------------------------------
+# RE: patterns — reference = Python `re` on the regex exactly as the user wrote it
+# (the whole path must match), generator = small regex ASTs that can be instantiated
+import re as _re
+
+RE_LET = "abcx"
+
+
+def g_re_ast(rng, depth=0):
+    """('seq', [nodes]); nodes: lit/esc/dot/cls/grp/rep"""
+    nodes = []
+    for _ in range(rng.randint(1, 4 if depth == 0 else 2)):
+        r = rng.random()
+        if r < 0.40:
+            n = ("lit", rng.choice(RE_LET + "/"))
+        elif r < 0.48:
+            n = ("dot",)
+        elif r < 0.58:
+            n = ("esc", rng.choice(".()[|+*?$\\"))            # an escaped metacharacter = that literal character
+        elif r < 0.70:
+            chars = "".join(rng.sample(RE_LET + "().:?", rng.randint(1, 3)))
+            n = ("cls", rng.random() < 0.25, chars)
+        elif r < 0.88 and depth < 2:
+            kind = rng.choice(["cap", "cap", "non"])
+            alts = [g_re_ast(rng, depth + 1) for _ in range(rng.randint(1, 2))]
+            n = ("grp", kind, alts)
+        else:
+            n = ("lit", rng.choice(RE_LET))
+        if n[0] != "grp" or rng.random() < 0.5:
+            q = rng.random()
+            if q < 0.12:
+                n = ("rep", "*", n)
+            elif q < 0.2:
+                n = ("rep", "?", n)
+            elif q < 0.26:
+                n = ("rep", "+", n)
+        nodes.append(n)
+    return ("seq", nodes)
+
+
+def re_src(n):
+    t = n[0]
+    if t == "seq":
+        return "".join(re_src(x) for x in n[1])
+    if t == "lit":
+        return n[1]
+    if t == "esc":
+        return "\\" + n[1]
+    if t == "dot":
+        return "."
+    if t == "cls":
+        return "[" + ("^" if n[1] else "") + n[2] + "]"
+    if t == "grp":
+        return ("(" if n[1] == "cap" else "(?:") + "|".join(re_src(a) for a in n[2]) + ")"
+    if t == "rep":
+        return re_src(n[2]) + n[1]
+    raise ValueError(n)
+
+
+def re_sample(rng, n):
+    """a string the regex (probably) matches"""
+    t = n[0]
+    if t == "seq":
+        return "".join(re_sample(rng, x) for x in n[1])
+    if t in ("lit", "esc"):
+        return n[1]
+    if t == "dot":
+        return rng.choice(RE_LET + ".(:")
+    if t == "cls":
+        if not n[1]:
+            if "(" in n[2] and rng.random() < 0.3:
+                return rng.choice("?:(")          # what a rewritten '(' inside a class would additionally admit
+            return rng.choice(n[2])
+        return rng.choice([c for c in RE_LET + "z" if c not in n[2]] or ["z"])
+    if t == "grp":
+        return re_sample(rng, rng.choice(n[2]))
+    if t == "rep":
+        k = {"*": rng.choice([0, 1, 2]), "?": rng.choice([0, 1]), "+": rng.choice([1, 2])}[n[1]]
+        return "".join(re_sample(rng, n[2]) for _ in range(k))
+    raise ValueError(n)
+
+
+def g_re_pattern(rng):
+    """(pattern text 'RE:…', ast); the regex has no trailing slash/backslash (normalisation / the
+    trailing-backslash rule would rewrite it) and no top-level alternation issue: `a|b` is legal"""
+    while True:
+        ast = g_re_ast(rng)
+        if rng.random() < 0.15:
+            ast = ("seq", [("grp", "non", [ast, g_re_ast(rng, 1)])])     # top-level a|b, grouped
+        src = re_src(ast)
+        if src.endswith("/") or src.endswith("\\") and not src.endswith("\\\\"):
+            continue
+        try:
+            _re.compile(src)
+        except _re.error:
+            continue
+        return "RE:" + src, ast
+
+
+@functools.lru_cache(maxsize=50000)
+def _re_ref(src):
+    return _re.compile("(?:%s)$" % src, _re.UNICODE)
+
+
+def is_re(p):
+    return p.startswith("RE:")
+
+
+_ESC_PAREN = _re.compile(r"(?<!\\)(?:\\\\)*\\\(")
+
+
+def _paren_in_class(src):
+    """an unescaped '(' inside a character class"""
+    i, n, incls = 0, len(src), False
+    while i < n:
+        c = src[i]
+        if c == "\\":
+            i += 2
+            continue
+        if incls:
+            if c == "]":
+                incls = False
+            elif c == "(":
+                return True
+        elif c == "[":
+            incls = True
+            if i + 1 < n and src[i + 1] == "^":
+                i += 1
+            if i + 1 < n and src[i + 1] == "]":
+                i += 1
+        i += 1
+    return False
+
+
+def re_family(pats, name):
+    """classifier on the concrete input: find the RE: patterns whose OWN single-pattern behaviour on `name`
+    differs from Python `re` on the regex as written; the family is named only if every such pattern carries
+    the construct"""
+    from breezy import globbing
+    culprits = []
+    for p in pats:
+        q = ref_normalize(exc_body(p) if p.startswith("!") else p)
+        if not is_re(q):
+            continue
+        try:
+            got = globbing.Globster([q]).match(name) is not None
+        except Exception:
+            got = None
+        if got != bool(_re_ref(q[3:]).match(name)):
+            culprits.append(q[3:])
+    if not culprits:
+        return None
+    if all(_ESC_PAREN.search(c) for c in culprits):
+        return "re-escaped-open-paren-rewritten"
+    if all(_paren_in_class(c) or _ESC_PAREN.search(c) for c in culprits):
+        return "re-open-paren-in-class-rewritten"
+    return None
+
+
+# ----------------------------------------------------------------------
 # running the real code
 def _impl(op, pats, name):
     from breezy import globbing, lazy_regex
@@ -628,8 +820,13 @@ def split_exc(pats):
     return p0, p1, p2
 
 
-def oracle_list(ctx, op, pats, name, got, case):
-    """the property's predicate on the real result `got` (canonical string)"""
+def oracle_list(ctx, op, pats, name, got, case, fam=None):
+    """the property's predicate on the real result `got` (canonical string); `fam` = classifier called
+    with (pats, name) when a violation is found"""
+    _v = globals()["_violation"]
+
+    def _violation(ctx, case, what):        # local wrapper adding the family
+        _v(ctx, case, what, family=fam(pats, name) if fam else None)
     if got.startswith("E:"):
         _violation(ctx, case, "in-grammar pattern list raised %s" % got)
         return False
@@ -695,10 +892,14 @@ def oracle_padding(ctx, op, pats, name, got, case, rng_k):
     """the result must not depend on how many (never matching) patterns there are"""
     if op == "ord" or got.startswith("E:"):
         return
-    pre = ""
-    for kind in ("extension", "basename", "fullpath"):
+    combos = [("", kind, where) for kind in ("extension", "basename", "fullpath") for where in ("front", "back")]
+    if op == "exc":
+        # never-matching '!' and '!!' patterns move the 99-boundaries of the two exception lists
+        combos += [(pre, kind, ("front", "back")[(i + rng_k) % 2])
+                   for pre in ("!", "!!") for i, kind in enumerate(("extension", "basename", "fullpath"))]
+    for pre, kind, where in combos:
         pad = [pre + filler(kind, 900000 + i) for i in range(rng_k)]
-        for where in ("front", "back"):
+        if True:
             padded = (pad + list(pats)) if where == "front" else (list(pats) + pad)
             got2 = _impl(op, padded, name)
             if got2 != got:
@@ -709,9 +910,10 @@ def oracle_padding(ctx, op, pats, name, got, case, rng_k):
                     return t[2:] if (op == "exc" and t.startswith("!!")) else t
                 a, b = body(got), body(got2)
                 fam = ext_regroup_family(pats, name, a, b)
-                _violation(ctx, dict(case, pad=dict(kind=kind, n=rng_k, where=where)),
-                              "result depends on the number of patterns: %s gives %s, with %d never-matching %s "
-                              "patterns at the %s %s" % (op, _pp(got), rng_k, kind, where, _pp(got2)), family=fam)
+                _violation(ctx, dict(case, pad=dict(kind=kind, n=rng_k, where=where, pre=pre)),
+                              "result depends on the number of patterns: %s gives %s, with %d never-matching %r "
+                              "patterns at the %s %s" % (op, _pp(got), rng_k, pre + filler(kind, 0)[:-1], where, _pp(got2)),
+                              family=fam)
                 return
 
 
@@ -804,11 +1006,62 @@ def run_lists(ctx, n_small, n_big, n_mal):
             ctx.count("result:" + ("none" if got == "N" else "some"))
             if hit:
                 ctx.count("hit")
-            if big or rng.random() < 0.15:
+            if op != "ord" and (big or rng.random() < 0.22):
+                ctx.count("padded:" + op)
                 oracle_padding(ctx, op, pats, name, got, case, rng.choice([1, 2, 50, 98, 99]))
             cases.append(case)
             lines.append(_line(op, pats, name))
             outs.append(got)
+    ctx.diff(cases, lines, outs)
+
+
+def run_re(ctx, n):
+    """lists with RE: patterns (alone, mixed with globs, under '!' / '!!'): the model does not cover regular
+    expressions (it must answer 'outside grammar'); the oracle is the documented rule 'an RE: pattern matches
+    when the regular expression matches the whole path' with Python `re` on the regex as written"""
+    rng = ctx.rng
+    cases, lines, outs = [], [], []
+    for _ in range(n):
+        op = rng.choice(["glob", "glob", "exc", "ord"])
+        res = [g_re_pattern(rng) for _ in range(rng.randint(1, 3))]
+        pats = [p for p, _ in res]
+        for _ in range(rng.randint(0, 3)):
+            q = g_pattern(rng)
+            if in_grammar(q):
+                pats.append(q)
+        rng.shuffle(pats)
+        if rng.random() < 0.15:
+            # more than 99 fullpath patterns: RE: patterns next to the group boundary
+            fill = [filler("fullpath", i) for i in range(rng.choice([97, 98, 99, 120]))]
+            k = rng.randrange(len(fill) + 1)
+            pats = fill[:k] + pats + fill[k:]
+        if op == "exc":
+            pats = [rng.choice(["", "", "!", "!!"]) + p for p in pats]
+        names = []
+        for p, ast in res:
+            s = re_sample(rng, ast)
+            names.append(s)
+            names.append(perturb(rng, s))
+        names.append(g_name(rng))
+        names = [x.replace("\n", "") for x in names]
+        names = [x for x in dict.fromkeys(names) if x and not x.endswith("/") and "//" not in x and not x.startswith("/")]
+        try:
+            m = _Matchers(op, pats)
+        except Exception as e:
+            _violation(ctx, dict(op=op, pats=pats), "constructor raised %r" % (e,))
+            continue
+        for name in names[:5]:
+            case = dict(op=op, pats=pats, name=name, stream="re")
+            got = m.match(name)
+            hit = oracle_list(ctx, op, pats, name, got, case, fam=re_family)
+            ctx.case(case, nontrivial=hit)
+            ctx.count("op:re-" + op)
+            ctx.count("re:" + ("hit" if hit else "miss"))
+            if rng.random() < 0.1:
+                oracle_padding(ctx, op, pats, name, got, case, rng.choice([1, 50, 99]))
+            cases.append(case)
+            lines.append(_line(op, pats, name))
+            outs.append("E")
     ctx.diff(cases, lines, outs)
 
 
@@ -921,9 +1174,18 @@ def run(ctx):
         from breezy import globbing
         ctx.mismatch(dict(op="shape"), repr(globbing.Globster.pattern_info["extension"]["prefix"]),
                      "extension prefix/translator shape not modelled")
+    elif variant() != "inorder":
+        # the theorems about the live model functions (globsterMatchO / exceptionMatchO) do not describe this code
+        ctx.mismatch(dict(op="shape"), "extension regex variant %r" % variant(),
+                     "inorder (every extension alternative carries its own prefix, ac6b52e); the shared greedy "
+                     "prefix makes the reported pattern depend on the grouping (family ext-multidot-regroup)")
     run_norm(ctx, ctx.pick(3000, 30000))
+    run_re(ctx, ctx.pick(1200, 12000))
     run_lists(ctx, ctx.pick(6000, 60000), ctx.pick(400, 4000), ctx.pick(600, 6000))
     run_tree(ctx, ctx.pick(60, 600))
+    # violations outside the input-classified families first (stable sort)
+    # then a regression into the repaired family, then the remaining families
+    ctx.violations.sort(key=lambda v: 0 if v.get("family") is None else 1 if v["family"] == "ext-multidot-regroup" else 2)
 
 
 def _replay_one(ctx, case):
@@ -949,6 +1211,15 @@ def _replay_one(ctx, case):
     pats, name = case["pats"], case["name"]
     got = _impl(op, pats, name)
     model = ctx.model([_line(op, pats, name)])[0]
+    if case.get("stream") == "re":
+        oracle_list(ctx, op, pats, name, got, case, fam=re_family)
+        if "pad" in case:
+            oracle_padding(ctx, op, pats, name, got, dict(op=op, pats=pats, name=name, stream="re"), case["pad"]["n"])
+        if model != "E":
+            ctx.mismatch(case, "E", model)
+        return dict(impl=got, model=model, reference={ref_normalize(exc_body(p) if op == "exc" else p): ref_match(
+            ref_normalize(exc_body(p) if op == "exc" else p), name) for p in pats if "zq" not in p},
+            family=re_family(pats, name))
     grammar = all(in_grammar(exc_body(p) if op == "exc" else p) for p in pats)
     if grammar:
         oracle_list(ctx, op, pats, name, got, case)
